@@ -17,6 +17,14 @@ CLAIMED = {
    text='Machine-checked proof (Lean 4): process_sound / process_rejects — for ALL operand lists (any count, any kinds) and all i64 values, on both cores: if the model of process succeeds, the independent legality spec accepts the operands and the bytes are its ISA encoding; what the spec rejects is an error; process never panics. Tie: Gen tables + 627k-case window/confusion enumeration (all registers x values 130 beyond both range ends, kind and count confusions, default core and ATtiny20) through build_str against model and spec.',
    note='Trusted base as C01; legality spec (Isa.surface) hand-written from the manual.',
    technique='Lean 4 theorem (soundness for all operand lists) + exhaustive window enumeration through the real library', ref='6/C04'),
+ 'C12': dict(
+   text='Machine-checked proof (Lean 4): Gen obligation devices_match_partdefs (every shipped includes/*def.inc that names a device of the table declares exactly the four capacities the table enforces; table re-extracted by executing DEVICES, part files re-parsed, on every run); build_fits / limits_exact (a build succeeds iff code <= 2*flash words, eeprom <= eeprom bytes, RAM extent <= RAM size of the device selected, and reports that device\'s sizes); pass1_within; unknown/second device are errors; documented defaults. Tie: exhaustive differential run over every device x 3 memories x {-1,0,+1} x ways of filling.',
+   note='Trusted: Lean kernel, static parser of the part files, hand-written model of builder/mod.rs + pass1 tied by correspondence; for devices without a part file the expected capacity is the code\'s own row.',
+   technique='Lean 4 theorems + kernel-decided Gen obligation over re-extracted device table and part files + exhaustive boundary correspondence', ref='6/C12'),
+ 'C13': dict(
+   text='Machine-checked proof (Lean 4): gate_exact — for EVERY device (any set of disabled options), every operation and every operand list the model of check_instruction admits the instruction iff none of the flags the independent feature statement (Spec.requires: multiply family, jmp/call, movw, lpm/elpm/spm forms, break, eijmp/eicall, smallest-core word/stack instructions, X/Y pointer and displacement forms) lists is disabled; gate_matches_model (the 54 x 115 matrix extracted by executing Device::check_operation equals the model, kernel-decided); device_frame (every instruction except lds/sts assembles to the same words whatever the device). Tie: exhaustive differential run of every device x every mnemonic/addressing form through build_str against model and spec.',
+   note='Trusted: Lean kernel, Spec.requires (hand-written from the property text), model of device.rs tied by the extracted matrix and exhaustive correspondence.',
+   technique='Lean 4 theorem for all devices/forms + kernel-decided extracted gate matrix + exhaustive device x form correspondence', ref='6/C13'),
 }
 
 def main():
